@@ -407,12 +407,12 @@ class Translator:
                 n = n[0] if isinstance(n, tuple) else n
                 if self._agg_node(n) and not isinstance(n.parent, exp.Window) and not (isinstance(n.parent, exp.Filter) and isinstance(n.parent.parent, exp.Window)):
                     # an aggregate that is the function of a window is not a GROUP BY aggregate
-                    anc = n.parent
+                    anc = n
                     in_sub = False
-                    while anc is not None and anc is not x:
-                        if isinstance(anc, exp.Subquery):
-                            in_sub = True
+                    while anc is not x and anc is not None:  # only the nodes between the aggregate and the select item count
                         anc = anc.parent
+                        if anc is not x and isinstance(anc, exp.Subquery):
+                            in_sub = True
                     if not in_sub:
                         return True
             return False
@@ -1036,10 +1036,125 @@ def write_gm() -> list[str]:
     return errors
 
 
+# --------------------------------------------------------------------------------------------------------------- accuracy (truth space) spec
+ACC_THR = 0.4375
+ACC_STMTS = [
+    "__splink__labels_with_pos_neg",
+    "__splink__labels_with_pos_neg_tt_adj",
+    "__splink__labels_with_pos_neg_grouped",
+    "__splink__labels_with_pos_neg_grouped_with_stats",
+    "__splink__labels_with_pos_neg_grouped_with_stats_adj",
+    "__splink__labels_with_pos_neg_grouped_with_truth_stats",
+]
+ACC_ROUND_EXPR = "cast(0.1 as float) * (round(match_weight/0.1))"
+
+
+def _acc_run(round_to):
+    import pandas as pd
+
+    import splink.comparison_library as cl
+    from splink import DuckDBAPI, Linker, SettingsCreator, block_on
+
+    api = DuckDBAPI()
+    df = pd.DataFrame({"unique_id": list(range(6)), "a": ["x", "x", "y", "y", "z", "z"], "b": ["p", "q", "p", "p", "q", "q"]})
+    settings = SettingsCreator(link_type="dedupe_only", comparisons=[cl.ExactMatch("a"), cl.ExactMatch("b")],
+                               blocking_rules_to_generate_predictions=[block_on("a"), block_on("b")])
+    linker = Linker(df, settings, api)
+    labels = pd.DataFrame({"unique_id_l": [0, 2, 0, 1], "unique_id_r": [1, 3, 2, 4], "clerical_match_score": [1.0, 1.0, 0.0, 0.0]})
+    lt = linker.table_management.register_labels_table(labels)
+    with Capture() as cap:
+        linker.evaluation.accuracy_analysis_from_labels_table(lt, output_type="table", threshold_match_probability=ACC_THR,
+                                                               match_weight_round_to_nearest=round_to)
+    found = {}
+    for ex in cap.rec:
+        for nm, sql in ex["ctes"]:
+            found[nm] = _norm(sql)
+    return found
+
+
+def capture_acc():
+    """The truth-space statements of accuracy.py (labels from a table): from `__splink__labels_with_pos_neg` to
+    `..._grouped_with_truth_stats`.  Role `lwp_in` = the three columns of `__splink__labels_with_predictions` these statements use
+    (match_weight ALREADY rounded to the requested grid, clerical_match_score, found_by_blocking_rules); literals: the clerical
+    threshold and the sentinel `cast(-999 as float8)` become parameters."""
+    errors = []
+    a = _acc_run(None)
+    b = _acc_run(0.1)
+    missing = [nm for nm in ACC_STMTS if nm not in a]
+    if missing:
+        return {"stmts": [], "errors": [f"accuracy_analysis_from_labels_table did not emit {missing}"]}
+    # the rounding expression is the only difference between the two runs
+    for nm in ACC_STMTS:
+        want = a[nm]
+        got = b.get(nm, "")
+        if nm == ACC_STMTS[0]:
+            if got.replace(ACC_ROUND_EXPR + " as truth_threshold", "match_weight as truth_threshold") != want:
+                errors.append(f"rounding to the nearest 0.1 is no longer `{ACC_ROUND_EXPR}` applied to match_weight: {got[:300]}")
+        elif got != want:
+            errors.append(f"statement {nm} depends on match_weight_round_to_nearest")
+    stmts = []
+    for nm in ACC_STMTS:
+        sql = a[nm]
+        if nm == ACC_STMTS[0]:
+            if "select *, match_weight as truth_threshold," not in sql or "from __splink__labels_with_predictions" not in sql:
+                errors.append(f"{nm}: unexpected shape: {sql[:300]}")
+            # `select *` of the wide predictions table: only the three columns the later statements read are kept
+            sql = sql.replace("select *, match_weight as truth_threshold,", "select match_weight, clerical_match_score, found_by_blocking_rules, match_weight as truth_threshold,")
+            sql = sql.replace("__splink__labels_with_predictions", "lwp_in")
+        if nm == ACC_STMTS[1]:
+            if "cast(-999 as float8)" not in sql:
+                errors.append(f"{nm}: the sentinel cast(-999 as float8) is gone: {sql[:300]}")
+            sql = sql.replace("cast(-999 as float8)", "777.25")
+        stmts.append((nm, sql))
+    return {"stmts": stmts, "errors": errors}
+
+
+def write_acc() -> list[str]:
+    """(Re)generate Generated/AccSql.lean.  Returns error strings."""
+    cap = capture_acc()
+    errors = list(cap["errors"])
+    params = {repr(ACC_THR): ("thr", "any"), "777.25": ("sentinel", "any")}
+    schemas = {"lwp_in": ["match_weight", "clerical_match_score", "found_by_blocking_rules"]}
+    coltypes = {"lwp_in": ["any", "any", "bool"]}
+    body = _translate_seq(cap["stmts"], schemas, params, errors, "acc/", coltypes)
+    L = ["import SplinkVerif.Model.Rel"]
+    L.append("/-! GENERATED by harness/translate/tsql.py from the truth-space SQL of `accuracy.py`")
+    L.append("(`truth_space_table_from_labels_with_predictions_sqls`, labels from a table) on the current tree.  Do not edit.")
+    L.append("")
+    L.append("Table `lwp_in` (match_weight, clerical_match_score, found_by_blocking_rules): the columns of `__splink__labels_with_predictions`")
+    L.append("these statements read, `match_weight` already rounded to the requested grid (the rounding expression is checked by the translator).")
+    L.append("Parameters: `thr` = the clerical threshold, `sentinel` = `cast(-999 as float8)`. -/")
+    L.append("namespace SplinkVerif.Gen.AccSql")
+    L.append("open SplinkVerif.Rel")
+    L.append("")
+    calls = []
+    for nm, term, cols, used, sql in body:
+        ident = _ident(nm)
+        L.append(f"/-- `{nm}`: `{sql}` ; columns {cols} -/")
+        if term is None:
+            L.append(f"-- UNTRANSLATABLE: {nm}")
+            continue
+        args = "".join(f" ({p} : Val)" for p in used)
+        L.append(f"def {ident}{args} : Rel :=\n  {term}")
+        L.append("")
+        calls.append((nm, ident + "".join(f" {p}" for p in used)))
+    if len(calls) == len(ACC_STMTS):
+        L.append("/-- the statements in the order the code issues them -/")
+        L.append("def stmts (thr sentinel : Val) : List Stmt :=")
+        L.append("  [" + ", ".join(f"⟨{lean_str(nm)}, {c}⟩" for nm, c in calls) + "]")
+        L.append("")
+    L.append("end SplinkVerif.Gen.AccSql")
+    text = "\n".join(L) + "\n"
+    p = GEN / "AccSql.lean"
+    if not p.exists() or p.read_text() != text:
+        p.write_text(text)
+    return errors
+
+
 if __name__ == "__main__":
     import sys
 
     which = sys.argv[1] if len(sys.argv) > 1 else "cc"
-    errs = {"cc": write_cc, "multi": write_multi, "gm": write_gm}[which]()
+    errs = {"cc": write_cc, "multi": write_multi, "gm": write_gm, "acc": write_acc}[which]()
     print("\n".join(errs) or "ok")
-    print((GEN / {"cc": "CCSql.lean", "multi": "MultiSql.lean", "gm": "GMSql.lean"}[which]).read_text()[:12000])
+    print((GEN / {"cc": "CCSql.lean", "multi": "MultiSql.lean", "gm": "GMSql.lean", "acc": "AccSql.lean"}[which]).read_text()[:12000])
